@@ -374,7 +374,7 @@ impl Check for C17 {
     }
     fn scenarios(&self, tier: Tier) -> u64 {
         match tier {
-            Tier::Quick => 400,
+            Tier::Quick => 1200,
             Tier::Thorough => 12000,
         }
     }
